@@ -1165,6 +1165,30 @@ class Terms:
         return (tuple(out_pos),
                 tuple(sorted(bound.items(), key=lambda x: x[0])))
 
+    def _module_const(self, dn):
+        """A module-level name of the package that is bound exactly once,
+        to a literal string / number / boolean / None, is that constant
+        (NAME = "q_value" ... x[NAME] reads the same as x["q_value"])."""
+        if os.environ.get("MOKAPOT_NO_MODCONST"):
+            return ("name", dn)
+        cache = self.prog.__dict__.setdefault("_modconst_cache", {})
+        if dn in cache:
+            return cache[dn]
+        out = ("name", dn)
+        mod, _, nm = dn.rpartition(".")
+        m = self.prog.modules.get(mod)
+        if m is not None and nm:
+            v = m.assigns.get(nm)
+            if isinstance(v, ast.Constant) and isinstance(
+                    v.value, (str, int, float, bool, type(None))):
+                stores = sum(1 for n in ast.walk(m.tree)
+                             if isinstance(n, ast.Name) and n.id == nm
+                             and isinstance(n.ctx, (ast.Store, ast.Del)))
+                if stores == 1:
+                    out = ("const", v.value)
+        cache[dn] = out
+        return out
+
     def _regetattr(self, t):
         """getattr(x, "name") -> x.name after a constant was substituted"""
         from .tutil import map_term
@@ -1226,7 +1250,7 @@ class Terms:
                     return self.of_defs(real, depth)
             r = self.prog.resolve_name(self.func, self.mod, e.id)
             if r is not None:
-                return ("name", r[1])
+                return self._module_const(r[1])
             if e.id in ("True", "False", "None"):
                 return ("const", {"True": True, "False": False,
                                   "None": None}[e.id])
@@ -1244,7 +1268,7 @@ class Terms:
                     not self.du.uses.get(id(root)):
                 dn = self.prog.dotted(self.func, self.mod, e)
                 if dn is not None:
-                    return ("name", dn)
+                    return self._module_const(dn)
             return ("attr", self._t(e.value, d1, cenv), e.attr)
         if isinstance(e, ast.Call):
             args = tuple(self._t(a, d1, cenv) for a in e.args)
